@@ -231,6 +231,11 @@ func init() {
 		}
 		return nil
 	})
+	reg(vrtPath+"Unsupported", func(in *Interp, fr *frame, a []Value) Value {
+		what, _ := a[0].(string)
+		in.abort("unsupported: harness oracle: %s", what)
+		return nil
+	})
 	reg(vrtPath+"Observe", func(in *Interp, fr *frame, a []Value) Value {
 		label, _ := a[0].(string)
 		in.path.observes = append(in.path.observes, observed{label, a[1]})
